@@ -123,6 +123,10 @@ func genericFor(id string, p *Prog, r *Report) {
 	if sc.staleRule != "" {
 		genericStale(p, r, sc.staleRule, sc.mods, sc.stFloor)
 	}
+	if ms, ok := updaterScopes[id]; ok {
+		directionUpdaterRule(p, r, ms.rule, ms.mods, ms.floor)
+		discardedArithmeticRule(p, r, ms.rule2, ms.mods, 5)
+	}
 	switch id {
 	case "C04":
 		denomLinkRule(p, r, "R04.8", modset("liquidity"), 4)
@@ -134,6 +138,7 @@ func genericFor(id string, p *Prog, r *Report) {
 		recordLinkRule(p, r, "R01.9", modset("vault"), 15)
 	case "C02":
 		recordLinkRule(p, r, "R02.7", modset("vault"), 15)
+		initAccumulateRule(p, r, "R02.8", modset("esm", "vault"), 2)
 	case "C03":
 		recordLinkRule(p, r, "R03.8", modset("vault"), 15)
 		priceDiscipline(p, r, "R03.10", modset("market", "vault"), 4)
@@ -485,6 +490,17 @@ func freshIDRule(p *Prog, r *Report, rule string, mods map[string]bool, floor in
 			}
 		}
 	}
+}
+
+var updaterScopes = map[string]struct {
+	rule, rule2 string
+	mods        map[string]bool
+	floor       int
+}{
+	"C01": {"R01.14", "R01.15", modset("vault"), 2},
+	"C03": {"R03.11", "R03.12", modset("vault"), 2},
+	"C08": {"R08.12", "R08.13", modset("lend"), 2},
+	"C13": {"R13.12", "R13.13", modset("locker", "collector"), 0},
 }
 
 var freshScopes = map[string]struct {
